@@ -44,7 +44,7 @@ check('C08', 'Hypothesis-generated hostile and pooled inputs x options; strict o
 check('C15', 'Hypothesis-generated texts supplied in every input form, differential comparison of outputs, real CLI subprocess batches',
       'hypothesis-sharded',
       'Each sampled text is supplied as str (with/without final newline), list / tuple / iterator of lines with and without terminators, '
-      'StringIO, real file object, in-process CLI and (batched) a real python -m mistletoe subprocess on 1..8 files; all outputs must be byte-identical; texts with a pipe are evaluated a second time with the parse option Table.interrupt_paragraph toggled, and every form must follow the option.',
+      'StringIO, real file object, in-process CLI and (batched) a real python -m mistletoe subprocess on 1..8 files; all outputs must be byte-identical; texts with a pipe are evaluated a second time with the parse option Table.interrupt_paragraph toggled, and every form must follow the option; about 1 % of the texts are repeated to 8-66 KB, beyond the buffers through which files and pipes are read.',
       'Domain: \\n is the only line terminator (the characters at which str.splitlines splits but file iteration does not are excluded); NUL and other control characters are in. Sampling only.',
       'DESIGN.md 5/C15')
 
@@ -67,7 +67,7 @@ check('C17', 'Hypothesis-generated hostile and pooled inputs; LaTeX output scann
 check('C14', 'Hypothesis-generated paragraphs from a tricky-token vocabulary, filtered by an independent spec-derived inertness predicate; exact-output oracle',
       'hypothesis-sharded',
       'Paragraphs of 1-4 lines assembled from ~190 tricky-but-inert tokens, or from tokens composed freely out of letter runs, digit runs and any ASCII / Unicode punctuation, are kept when an own predicate (block-start patterns per line, '
-      'inline triggers over the paragraph, emphasis by the independent model) proves them inert; lines may be indented (continuation lines by four or more columns); HtmlRenderer output must then be exactly '
+      'inline triggers over the paragraph, emphasis by the independent model) proves them inert; lines may be indented (continuation lines by four or more columns); about one paragraph in twenty begins with a line that looks like a link reference definition and provably is none; HtmlRenderer output must then be exactly '
       '<p>escaped text</p>.',
       'Sampling only. The predicate is conservative (discards what it cannot prove inert; discard counts are in the evidence).',
       'DESIGN.md 5/C14')
@@ -105,12 +105,12 @@ check('C05', 'Hypothesis-generated pairs of texts; metamorphic relation AST(A + 
       'Sampling only; side conditions evaluated on the separate parses.',
       'DESIGN.md 5/C05')
 
-check('C03', 'Hypothesis choice tapes decoded into model trees of CommonMark/GFM constructs with free spelling; oracle = HTML written directly from the tree, compared under the spec normaliser',
+check('C03', 'Hypothesis choice tapes decoded into model trees of CommonMark/GFM constructs with free spelling (plus a small generated model of multi-line code spans); oracle = HTML written directly from the tree, compared under the spec normaliser',
       'hypothesis-sharded',
       'Each tape is decoded into a tree (all block and inline constructs of the statement, depth <= 4, <= 40 blocks) whose spelling choices '
       '(indentation, markers incl. leading zeros and per-item indentation, padding, tabs at column 0, fences, closing #, > with/without space, lazy lines, optional and whitespace-only blank lines, table pipes and padding, multi-line titles) are drawn as well; paragraphs of raw delimiter runs are read by the emphasis model; the '
       'Markdown written from it must render to the HTML written from the tree by independent code. A curated list of hand-derived pairs '
-      '(regressions of repaired defects) is enumerated too, and a complete table of HTML block tag names (the 62 of the specification and 20 others x 8 spellings after a paragraph line).',
+      '(regressions of repaired defects) is enumerated too, a second generated part writes code spans whose content begins, ends and is divided by spaces and line endings (plain, quoted, in list items, lazy lines) against CommonMark 6.1 computed directly, and a complete table of HTML block tag names (the 62 of the specification and 20 others x 8 spellings after a paragraph line).',
       'Sound only as far as the writer is (it writes only spellings the specification makes unambiguous; see DESIGN.md 3/G4). Seven recorded '
       'findings are excluded by writer switches and announced as KNOWN-FINDING with hand-derived witnesses.',
       'DESIGN.md 5/C03')
@@ -122,12 +122,12 @@ check('C13', 'Hypothesis choice tapes decoded into G4 documents whose writer rec
       'Sampling only; structurally different parses are left to C03 and counted as skipped.',
       'DESIGN.md 5/C13')
 
-check('C07', 'Hypothesis choice tapes decoded into G4 documents in reference mode (definitions at drawn placements, re-spelled labels, all reference forms); oracle = tree-derived HTML with a model resolver and the model definition map',
+check('C07', 'Hypothesis choice tapes decoded into G4 documents in reference mode (definitions at drawn placements, re-spelled labels, all reference forms) and into paragraphs ending in a reference followed by a non-tail; oracle = tree-derived HTML with a model resolver and the model definition map',
       'hypothesis-sharded',
       'Labels get 1-3 definitions (case / whitespace / Unicode-fold variants) placed at block boundaries of the document, block quotes and '
       'loose list items, before or after their uses; uses appear as full, collapsed and shortcut links and images in paragraphs, headings '
       'and table cells, plus undefined labels. The rendered HTML must equal the HTML written from the tree by a model resolver (first '
-      'definition in document order), and Document.footnotes must equal the model map.',
+      'definition in document order), and Document.footnotes must equal the model map. A second generated part (own small model) ends every paragraph in a reference - any form, link or image, defined or undefined label - directly followed by text that is not an inline-link tail, or by a valid one (which wins for shortcut references).',
       'Sampling only; definitions in tight list items are not generated.',
       'DESIGN.md 5/C07')
 
